@@ -245,6 +245,18 @@ func List(tier string) []Scenario {
 	add("expr", plain)
 	add("closure", closures)
 	add("closurepred", closurePreds)
+	// a function call directly as the argument of another function: the inner
+	// call is NOT cloned per evaluation by the engine, so whatever it keeps is shared
+	inner := []string{"sum(//@x)", "count(//a)", "string(//b)", "name(*)", "string-join(//b, ',')", "normalize-space(//b)", "concat(//b, '-')", "number(//@x)", "string-length(//b)", "substring(//b, 1)", "not(a)", "local-name(//a)", "translate(//b, '1', '2')", "lower-case(//b)", "floor(//@x)", "sum(*/@x)"}
+	outer := []string{"string(%s)", "number(%s)", "round(%s)", "boolean(%s)", "concat(%s, '')", "string-length(%s)", "not(%s)", "floor(%s)"}
+	for i, in := range inner {
+		for j, o := range outer {
+			if tier != "thorough" && (i+j)%4 != 0 {
+				continue
+			}
+			out = append(out, exprScenario("nested", fmt.Sprintf(o, in), []string{"evaluate", "evaluate"}, []int{1, 3}))
+		}
+	}
 	// one representative per stateful query type, explored one preemption deeper
 	for _, s := range []string{"//a | //b", "a[b]", "//*[ancestor::a]", "(//a)[2]", "*[last()]", "//a//b", "following::*", "*/(a, b)", "//b = '1'", "ancestor-or-self::*"} {
 		out = append(out, exprScenario("expr2", s, []string{"evaluate", "select"}, []int{1, 3}))
